@@ -220,6 +220,15 @@ def report(ctx, results):
       ctx.count("ds/eigh=%s" % c["eigh"])
       ctx.count("ds/ragged=%s" % any(d % c["block"] for d in case["shape"] if d > c["block"]))
     ctx.count("steps", len(r["steps"]))
+    if case["kind"] == "ds":
+      # how much room the conditioning slack leaves (informative only; Coq recomputes it from the
+      # verified eigenvalue bounds)
+      for st in r["steps"]:
+        for (lo, hi), a in zip(st["lam"], st["A"]["stats"]):
+          ridge = c["meps"] * (hi if c["rel_eps"] else 1.0)
+          sl = 16 * len(a) * 2.0 ** -24 * (hi + ridge) / (max(lo, 0.0) + ridge) if ridge > 0 else float("inf")
+          ctx.count("ds/root_slack_%s" % ("<1e-4" if sl < 1e-4 else "<1e-2" if sl < 1e-2 else "<1" if sl < 1
+                                           else ">=1(vacuous unless bitwise)"))
     ctx.count("companions", len(case["companions"]))
     if case["kind"] == "ds":
       own = max(min(d, c["block"]) for d in case["shape"])
